@@ -46,13 +46,15 @@ func genConfig(t *rapid.T, universe []kit.KeySpec, label string) GConfig {
 	var c GConfig
 	used := map[string]bool{}
 	nsvc := rapid.IntRange(0, 4).Draw(t, label+"nsvc")
-	slotPerm := rapid.Permutation([]int{0, 1, 2, 3, 4, 5, 6, 7, 8, 9}).Draw(t, label+"slots")
+	// Slots 0-1 are only ever used by legacy (wildcard) ports, 2-8 by service listeners, 9 is reserved (C11's retained
+	// address): a wildcard and a specific bind on one port conflict while two generations overlap during a reload,
+	// which would make a fault-free reload fail for a reason outside the properties.
 	nLegacyPorts := rapid.IntRange(0, 2).Draw(t, label+"nlegacyports")
 	if nsvc == 0 && nLegacyPorts == 0 {
 		nsvc = 1
 	}
-	legacySlots := slotPerm[:nLegacyPorts]
-	svcSlots := slotPerm[nLegacyPorts:]
+	legacySlots := rapid.Permutation([]int{0, 1}).Draw(t, label+"lslots")[:nLegacyPorts]
+	svcSlots := []int{2, 3, 4, 5, 6, 7, 8}
 	for s := 0; s < nsvc; s++ {
 		var svc GService
 		nl := rapid.IntRange(1, 4).Draw(t, label+"nlisteners")
